@@ -45,6 +45,9 @@ func main() {
 	case "rendezvous":
 		setupLogger()
 		runRendezvous(os.Args[2:])
+	case "multi":
+		setupLogger()
+		runMultiNode(os.Args[2:])
 	default:
 		fmt.Fprintln(os.Stderr, "unknown engine", os.Args[1])
 		os.Exit(2)
